@@ -22,13 +22,35 @@ def install(it):
 
         return Builtin(name, f)
 
+    class StructTime(Model):
+        model_name = "struct_time"
+
+        def __init__(self, zone, secs):
+            super().__init__()
+            self.zone = zone
+            self.secs = secs
+
+    f_strftime = z3.Function("py_strftime", z3.StringSort(), z3.BoolSort(), z3.RealSort(), z3.StringSort())
+
+    def gmtime(i, a, k):
+        return StructTime("utc", a[0])
+
+    def localtime(i, a, k):
+        return StructTime("local", a[0])
+
+    def strftime(i, a, k):
+        fmt, st = a[0], a[1]
+        from .core import term
+
+        return SV("str", f_strftime(term(fmt), z3.BoolVal(st.zone == "utc"), as_real(st.secs)))
+
     mm["time"] = ModuleVal(
         "time",
         {
             "time": Builtin("time.time", t_time),
-            "gmtime": unsup("time.gmtime"),
-            "localtime": unsup("time.localtime"),
-            "strftime": unsup("time.strftime"),
+            "gmtime": Builtin("time.gmtime", gmtime),
+            "localtime": Builtin("time.localtime", localtime),
+            "strftime": Builtin("time.strftime", strftime),
         },
     )
     mm["datetime"] = ModuleVal("datetime", {"datetime": Opaque("datetime.datetime")})
